@@ -12,12 +12,12 @@ From RQ Require Import Base.Outcome Base.Ints Base.ListX Gen.Consts Gen.SysTable
 Import ListNotations.
 Open Scope N_scope.
 
-(* what the block encoder e hands out: a source packet, or a packet of a repair window that does
-   not leave u32 (automatic in Checked mode, where such a window panics) *)
+(* what the block encoder e hands out: a source packet, or a packet of any repair window it
+   accepts (the repaired repair_packets refuses windows beyond the 24-bit id space, so nothing can
+   wrap) *)
 Definition enc_produces (m : mode) (e : sb_encoder) (p : packet) : Prop :=
   (exists l, sbe_source_packets e = Ok l /\ In p l) \/
-  (exists Kp s n l, extended_source_block_symbols (lenN (sbe_syms e)) = Ok Kp /\
-     Kp + s + n <= 2 ^ 32 /\ sbe_repair_packets m e s n = Ok l /\ In p l).
+  (exists s n l, sbe_repair_packets m e s n = Ok l /\ In p l).
 
 Lemma Forall_firstn' {A} (P : A -> Prop) n : forall l, Forall P l -> Forall P (firstn n l).
 Proof. induction n as [|n IH]; intros [|a l] F; cbn; try constructor; inversion F; subst; auto. Qed.
@@ -95,7 +95,7 @@ Lemma produced_block_packet p : enc_produces m e p ->
 Proof.
   pose proof (ec_len _ _ _ _ _ _ _ _ _ _ _ _ EC) as Hlen. pose proof (ec_id _ _ _ _ _ _ _ _ _ _ _ _ EC) as Hid.
   pose proof (po_le _ _ _ _ _ _ _ PO) as HKK. pose proof ctx_Cwf as HCw. pose proof ctx_CL as HCl.
-  intros [[l [El Hin]]|[Kp [s [n [l [Ex [Hb [El Hin]]]]]]]].
+  intros [[l [El Hin]]|[s [n [l [El Hin]]]]].
   - unfold sbe_source_packets in El. destruct (source_packets_inv _ _ _ El) as [S1 [S2 S3]].
     destruct (In_nth l p ((0, 0), []) Hin) as [k [Hk Ek]].
     assert (Hkl : (k < length (sbe_syms e))%nat) by (rewrite <- S2, map_length; exact Hk).
@@ -108,7 +108,8 @@ Proof.
     { rewrite <- Ek. rewrite <- (map_nth snd l ((0, 0), []) k), S2. reflexivity. }
     split; [rewrite E1; exact Hid|]. left. rewrite E1. cbn [snd]. unfold lenN in Hlen.
     split; [lia|]. rewrite Nat2N.id. exact E2.
-  - rewrite Hlen in Ex. rewrite (po_ext _ _ _ _ _ _ _ PO) in Ex. injection Ex as <-.
+  - apply repair_ok_iff in El. destruct El as [Hb24 El]. rewrite Hlen in Hb24.
+    destruct (inside_no_wrap K K' J S H W P1 s n PO Hb24) as [_ Hb].
     destruct (In_nth l p ((0, 0), []) Hin) as [k [Hk Ek]].
     assert (PO' : params_of (lenN (sbe_syms e)) K' J S H W P1) by (rewrite Hlen; exact PO).
     destruct (window_nth m e K' J S H W P1 PO' s n l El) as [Hl Hn].
